@@ -303,42 +303,94 @@ func runC01(c *core.Ctx) {
 		if fn == nil {
 			continue
 		}
+		// decision table by feasibility: whatever the dispatch is written as (switch, if-chain, `< 0xFD`
+		// first, …), for a given first byte t every comparison of that byte with a constant is decided; the
+		// payload reads that stay reachable must be exactly the one of the tag's width (none for t < 0xFD)
 		got := map[int64]int{}
+		var tagV ssa.Value
 		for _, cd := range ir.Conds(fn) {
-			b, ok := cd.V.(*ssa.BinOp)
-			if !ok || b.Op != token.EQL {
-				continue
+			if b, ok := cd.V.(*ssa.BinOp); ok {
+				if k, okk := ir.ConstInt(b.Y); okk && k >= 0xFD && k <= 0xFF {
+					tagV = b.X
+				} else if k, okk := ir.ConstInt(b.X); okk && k >= 0xFD && k <= 0xFF {
+					tagV = b.Y
+				}
 			}
-			k, okk := ir.ConstInt(b.Y)
-			if !okk || k < 0xFD || k > 0xFF {
-				continue
+		}
+		okSmall := tagV != nil
+		for _, t := range []int64{0x00, 0xFC, 0xFD, 0xFE, 0xFF} {
+			if tagV == nil {
+				break
 			}
-			// width on the true edge: NextUintN call or LittleEndian.UintN
-			t := cd.If.Block().Succs[0]
 			r := ir.NewReach(fn)
-			// stop at the join: only look at blocks dominated by t
-			for _, bb := range fn.Blocks {
-				if bb != t && !t.Dominates(bb) {
+			for _, cd := range ir.Conds(fn) {
+				b, ok := cd.V.(*ssa.BinOp)
+				if !ok {
 					continue
 				}
+				var k int64
+				var op token.Token
+				if kk, okk := ir.ConstInt(b.Y); okk && sameTagByte(b.X, tagV) {
+					k, op = kk, b.Op
+				} else if kk, okk := ir.ConstInt(b.X); okk && sameTagByte(b.Y, tagV) {
+					k, op = kk, relMirror(b.Op)
+				} else {
+					continue
+				}
+				var holds bool
+				switch op {
+				case token.EQL:
+					holds = t == k
+				case token.NEQ:
+					holds = t != k
+				case token.LSS:
+					holds = t < k
+				case token.LEQ:
+					holds = t <= k
+				case token.GTR:
+					holds = t > k
+				case token.GEQ:
+					holds = t >= k
+				default:
+					continue
+				}
+				if holds {
+					r.Cut[ir.Edge{From: cd.If.Block(), Idx: cd.FalseIdx()}] = true
+				} else {
+					r.Cut[ir.Edge{From: cd.If.Block(), Idx: cd.TrueIdx()}] = true
+				}
+			}
+			r.Run(nil)
+			widths := map[int]bool{}
+			for _, bb := range fn.Blocks {
 				for _, in := range bb.Instrs {
 					ci, isC := in.(ssa.CallInstruction)
-					if !isC || ir.CalleeObj(ci) == nil {
+					if !isC || ir.CalleeObj(ci) == nil || !r.Instr(in) {
 						continue
 					}
 					switch ir.CalleeObj(ci).Name() {
 					case "NextUint16", "Uint16":
-						got[k] = 2
+						widths[2] = true
 					case "NextUint32", "Uint32":
-						got[k] = 4
+						widths[4] = true
 					case "NextUint64", "Uint64":
-						got[k] = 8
+						widths[8] = true
 					}
 				}
 			}
-			_ = r
+			if t < 0xFD {
+				if len(widths) != 0 {
+					okSmall = false
+				}
+				continue
+			}
+			if len(widths) == 1 {
+				for w := range widths {
+					got[t] = w
+				}
+			}
 		}
-		ok := len(got) == 3 && got[0xFD] == 2 && got[0xFE] == 4 && got[0xFF] == 8
+		ok := okSmall && len(got) == 3 && got[0xFD] == 2 && got[0xFE] == 4 && got[0xFF] == 8
 		c.Decide(ok, "C01.varuint", fn, "the decoder maps tags 0xFD/0xFE/0xFF to 2/4/8 payload bytes and any other byte to itself", c.P.Rel(fn.Pos()), sprintf("%v", got))
 	}
 
@@ -639,4 +691,24 @@ func blockExcludes01(fn *ssa.Function, v ssa.Value, blk *ssa.BasicBlock) bool {
 		}
 	}
 	return ex[0] && ex[1]
+}
+
+// sameTagByte: the same SSA value, or two loads of the same array element (buf[0] read again per comparison).
+func sameTagByte(a, b ssa.Value) bool {
+	if a == b || sameValue(a, b) {
+		return true
+	}
+	la, ok1 := a.(*ssa.UnOp)
+	lb, ok2 := b.(*ssa.UnOp)
+	if !ok1 || !ok2 {
+		return false
+	}
+	ia, ok1 := la.X.(*ssa.IndexAddr)
+	ib, ok2 := lb.X.(*ssa.IndexAddr)
+	if !ok1 || !ok2 || ia.X != ib.X {
+		return false
+	}
+	ka, oka := ir.ConstInt(ia.Index)
+	kb, okb := ir.ConstInt(ib.Index)
+	return oka && okb && ka == kb
 }
